@@ -79,6 +79,33 @@ def has_left_saturating_matching(L, R, edges):
     return rec(1, frozenset())
 
 
+def nx_bipartite(L, R, edges, order):
+    """networkx input with the documented 'bipartite' node attribute.  The
+    vertices of each side are inserted in index order (that order defines the
+    numbering) but the two sides are interleaved according to `order`, and
+    every edge is added with the hole/right endpoint first."""
+    import networkx
+    G = networkx.Graph()
+    lefts = [('l', i) for i in range(1, L + 1)]
+    rights = [('r', j) for j in range(1, R + 1)]
+    if order == 'right-first':
+        seq = rights + lefts
+    elif order == 'interleaved':
+        seq = []
+        for k in range(max(L, R)):
+            if k < R:
+                seq.append(rights[k])
+            if k < L:
+                seq.append(lefts[k])
+    else:
+        seq = lefts + rights
+    for (side, i) in seq:
+        G.add_node('%s%d' % (side, i), bipartite=0 if side == 'l' else 1)
+    for (u, v) in edges:
+        G.add_edge('r%d' % v, 'l%d' % u)
+    return G
+
+
 def build(case):
     import cnfgen
     from cnfgen.formula.cnf import CNF
@@ -89,7 +116,8 @@ def build(case):
     if fam == 'php':
         return cnfgen.PigeonholePrinciple(a[0], a[1], functional=a[2], onto=a[3], formula_class=fc)
     if fam == 'gphp':
-        B = scope.mk_bipartite(a[0], a[1], a[2])
+        B = scope.mk_bipartite(a[0], a[1], a[2]) if not case.get('nx') else \
+            nx_bipartite(a[0], a[1], a[2], case['nx'])
         return cnfgen.GraphPigeonholePrinciple(B, functional=a[3], onto=a[4], formula_class=fc)
     if fam == 'bphp':
         return cnfgen.BinaryPigeonholePrinciple(a[0], a[1], formula_class=fc)
@@ -98,10 +126,19 @@ def build(case):
     if fam == 'count':
         return cnfgen.CountingPrinciple(a[0], a[1], formula_class=fc)
     if fam == 'matching':
-        G = scope.mk_graph(a[0], a[1])
+        if case.get('nx'):
+            import networkx
+            G = networkx.Graph()
+            for v in range(a[0], 0, -1):      # inserted in reverse order, labels 10*v
+                G.add_node(10 * v)
+            for (u, v) in a[1]:
+                G.add_edge(10 * v, 10 * u)
+        else:
+            G = scope.mk_graph(a[0], a[1])
         return cnfgen.PerfectMatchingPrinciple(G, formula_class=fc)
     if fam == 'subsetcard':
-        B = scope.mk_bipartite(a[0], a[1], a[2])
+        B = scope.mk_bipartite(a[0], a[1], a[2]) if not case.get('nx') else \
+            nx_bipartite(a[0], a[1], a[2], case['nx'])
         return cnfgen.SubsetCardinalityFormula(B, equalities=a[3], formula_class=fc)
     if fam == 'cliquecol':
         return cnfgen.CliqueColoring(a[0], a[1], a[2], formula_class=fc)
@@ -496,6 +533,13 @@ def cases(tier, seed):
                         cs.append({'fam': 'gphp', 'args': [L, Rr, list(es), f, o], 'cls': cls})
                 for eq in (False, True):
                     cs.append({'fam': 'subsetcard', 'args': [L, Rr, list(es), eq], 'cls': cls})
+                if cls == 'CNF' and L <= 3 and Rr <= 3:
+                    # networkx input (documented as accepted), sides interleaved
+                    for order in ('right-first', 'interleaved'):
+                        cs.append({'fam': 'gphp', 'args': [L, Rr, list(es), len(es) % 2 == 0, len(es) % 3 == 0],
+                                   'cls': cls, 'nx': order})
+                        cs.append({'fam': 'subsetcard', 'args': [L, Rr, list(es), len(es) % 2 == 1],
+                                   'cls': cls, 'nx': order})
         for P in range(0, 5 if not thorough else 6):
             for H in range(0, 7 if not thorough else 10):
                 bits = max(0, (H - 1).bit_length())
@@ -515,6 +559,8 @@ def cases(tier, seed):
         for n in range(nmax + 1):
             for es in scope.simple_graphs(n):
                 cs.append({'fam': 'matching', 'args': [n, list(es)], 'cls': cls})
+                if n <= 4 and cls == 'CNF':
+                    cs.append({'fam': 'matching', 'args': [n, list(es)], 'cls': cls, 'nx': 'reverse'})
         for n in range(0, 5):
             for k in range(0, 4):
                 for c in range(0, 4):
